@@ -624,12 +624,13 @@ def find_config(repo):
         if d and os.path.exists(os.path.join(d, 'config.h')): return d
     return None
 
-def translate_repo(repo, config_dir=None, extra_defs=()):
+def translate_repo(repo, config_dir=None, extra_defs=(), only=None):
     """returns (functions: list of dicts in program order, stats)"""
     config_dir = config_dir or find_config(repo)
     incs = [os.path.join(repo, 'src')] + ([config_dir] if config_dir else [])
     defs = (['HAVE_CONFIG_H'] if config_dir else []) + list(extra_defs)
     files = library_files(repo)
+    if only: files = [f for f in files if os.path.basename(f) in only]
     asts = {}; typedefs = {}; records = {}; fields_by_id = {}; fundecls = {}
     for f in files:
         ast = clang_ast(f, incs, defs); asts[f] = ast
@@ -731,6 +732,35 @@ def emit(funs, stats, repo):
     lines.append('end TJ.Gen.MiniC')
     return '\n'.join(lines) + '\n'
 
+def regenerate_clean_fallback(repo='/repo', config_dir=None):
+    """tinyjambu-clean.c translated under a config.h with HAVE_EXPLICIT_BZERO / HAVE_MEMSET_S switched off:
+    the volatile byte loop.  Output: lean/TJ/Gen/MiniC/CleanFallback.lean"""
+    config_dir = config_dir or find_config(repo)
+    scratch = tempfile.mkdtemp(prefix='tjcfg-', dir='/var/tmp')
+    try:
+        txt = open(os.path.join(config_dir, 'config.h')).read() if config_dir else ''
+        txt = re.sub(r'#define\s+HAVE_EXPLICIT_BZERO\b[^\n]*', '/* #undef HAVE_EXPLICIT_BZERO */', txt)
+        txt = re.sub(r'#define\s+HAVE_MEMSET_S\b[^\n]*', '/* #undef HAVE_MEMSET_S */', txt)
+        open(os.path.join(scratch, 'config.h'), 'w').write(txt)
+        funs, stats = translate_repo(repo, scratch, (), only=('tinyjambu-clean.c',))
+    finally:
+        shutil.rmtree(scratch, ignore_errors=True)
+    lines = ['/-  REGENERATED by tools/c2lean.py: src/backend/tinyjambu-clean.c with HAVE_EXPLICIT_BZERO and HAVE_MEMSET_S off — do not edit.  -/',
+             'import TJ.MiniC.Sem', 'namespace TJ.Gen.MiniC.Fallback', 'open TJ.MiniC', '',
+             'def seqs : List Stmt → Stmt', '  | [] => .skip', '  | [s] => s', '  | s :: r => .seq s (seqs r)', '']
+    for f in funs:
+        if 'error' in f: raise TranslateError(f['error'])
+        lines.append('def %s : FunDecl :=' % lean_name(f['name']))
+        lines.append('  { name := "%s", nparams := %d, nvars := %d, allocs := [%s],' % (f['name'], f['nparams'], f['nvars'], ', '.join('(%d, %d)' % a for a in f['allocs'])))
+        lines.append('    body := ' + lean_stmt(f['body'], 6) + ' }')
+        lines.append('')
+    lines.append('end TJ.Gen.MiniC.Fallback')
+    text = '\n'.join(lines) + '\n'
+    os.makedirs(GEN, exist_ok=True)
+    p = os.path.join(GEN, 'CleanFallback.lean')
+    if not os.path.exists(p) or open(p).read() != text: open(p, 'w').write(text)
+    return funs
+
 def regenerate(repo='/repo', config_dir=None, extra_defs=()):
     funs, stats = translate_repo(repo, config_dir, extra_defs)
     text = emit(funs, stats, repo)
@@ -743,6 +773,7 @@ def regenerate(repo='/repo', config_dir=None, extra_defs=()):
 if __name__ == '__main__':
     repo = sys.argv[1] if len(sys.argv) > 1 else '/repo'
     funs, stats = regenerate(repo, sys.argv[2] if len(sys.argv) > 2 else None)
+    regenerate_clean_fallback(repo, sys.argv[2] if len(sys.argv) > 2 else None)
     print('functions %d translated %d nodes %d' % (stats['functions'], stats['translated'], stats['nodes']))
     for e in stats['errors']: print('ERROR', e)
     if stats['globals']: print('file-scope variables:', stats['globals'])
